@@ -585,23 +585,33 @@ fn load_sheet_rels<R: Read + std::io::Seek>(
     for rel in rels {
         let t = get_attribute(&rel, "Type")?.to_string();
         if t.ends_with("comments") {
-            let mut target = get_attribute(&rel, "Target")?.to_string();
+            let target = get_attribute(&rel, "Target")?;
             // Target="../comments1.xlsx"
-            target.replace_range(..2, v[0]);
+            let target = match target.strip_prefix("..") {
+                Some(t) => format!("{}{t}", v[0]),
+                None => {
+                    return Err(XlsxError::Xml(format!(
+                        "Unexpected target of a comments relationship: {target}"
+                    )))
+                }
+            };
             comments = load_comments(archive, &target)?;
         } else if t.ends_with("hyperlink") {
             let id = get_attribute(&rel, "Id")?.to_string();
             let target = get_attribute(&rel, "Target")?.to_string();
             hyperlinks.insert(id, target);
         } else if t.ends_with("table") {
-            let mut target = get_attribute(&rel, "Target")?.to_string();
+            let target = get_attribute(&rel, "Target")?;
 
             let path = if let Some(p) = target.strip_prefix('/') {
                 p.to_string()
-            } else {
+            } else if let Some(t) = target.strip_prefix("..") {
                 // Target="../table1.xlsx"
-                target.replace_range(..2, v[0]);
-                target
+                format!("{}{t}", v[0])
+            } else {
+                return Err(XlsxError::Xml(format!(
+                    "Unexpected target of a table relationship: {target}"
+                )));
             };
 
             let table = load_table(archive, &path, sheet_name)?;
